@@ -807,8 +807,25 @@ class Builder:
                     isinstance(k.value.value, (str, bytes, int, bool,
                                                type(None))):
                 lits.append((k.arg, k.value.value))
-        if lits:
-            cctx = Ctx(t.func, t.self_cls, frozenset(lits))
+        ptypes = []
+        for i, a in enumerate(e.args):
+            if isinstance(a, ast.Starred):
+                break
+            if i < len(pl) and isinstance(a, (ast.Name, ast.Attribute)):
+                ts = self.r.infer(a, frame.ctx)
+                ts = frozenset(x for x in ts if x[0] == 'inst')
+                if ts:
+                    ptypes.append((pl[i], ts))
+        for k in e.keywords:
+            if k.arg in pl and isinstance(k.value, (ast.Name,
+                                                    ast.Attribute)):
+                ts = frozenset(x for x in self.r.infer(k.value, frame.ctx)
+                               if x[0] == 'inst')
+                if ts:
+                    ptypes.append((k.arg, ts))
+        if lits or ptypes:
+            cctx = Ctx(t.func, t.self_cls, frozenset(lits),
+                       frozenset(ptypes))
         callee = Frame(cctx, frame, e, same)
         ce = self._emit('call_enter', e, frame)
         ce.extra['target'] = t
